@@ -465,3 +465,16 @@ def extract(repo=None, with_tools=True, extra_flags=(), tag=""):
             raise BrokenAnalysis("units do not parse: " + "; ".join("%s: %s" % (u, e.strip()[-300:]) for u, e in bad))
         open(os.path.join(d, "OK"), "w").write(time.ctime())
     return Program(repo, lib, tools if with_tools else [], d, flags)
+
+
+def extract_file(path, flags=("-std=gnu17",)):
+    """Run the extractor on one stand-alone file (positive examples); returns its Funcs."""
+    d = os.path.join(FACTS_ROOT, "pos")
+    os.makedirs(d, exist_ok=True)
+    out = os.path.join(d, os.path.basename(path) + ".json")
+    if not os.path.exists(out) or os.path.getmtime(out) < max(os.path.getmtime(path), os.path.getmtime(MTBLX)):
+        p = subprocess.run([MTBLX, path, "-o", out, "--"] + list(flags), capture_output=True, text=True)
+        if p.returncode != 0:
+            raise BrokenAnalysis("positive example %s does not parse: %s" % (path, p.stderr[-300:]))
+    dd = json.load(open(out))
+    return [Func(fd, "pos/" + os.path.basename(path)) for fd in dd["functions"]]
